@@ -45,8 +45,19 @@
 //!   (`lclone=1`: from a clone of the layer taken at that moment); default: the call is made on a fresh clone of service
 //!   k; `h=same`: on the handle kept for service k (the one used by the previous `h=` arrival: `h.call(); h.call()`);
 //!   `h=clone`: on a clone of that handle taken now (after whatever calls it made), which becomes the kept handle.
+//!
+//! Budget events. The budget handed to `.budget(..)` is wrapped (`Logged`): every `try_withdraw` made from inside the poll
+//!   of a call future is a compared log line `budget <c> grant` / `budget <c> refused` (c = the request whose future is
+//!   being polled: `Tagged` marks it; a `manual withdraw` by another holder of the handle is not inside a poll and is
+//!   logged as before, `probe withdraw=…`). The layer's own view of a refusal — the `BudgetExhausted` event, through
+//!   `.on_budget_exhausted` — is the meta line `#budget_exhausted <attempt>` (checked by the monitor `c05-grant-before-retry`
+//!   against the `refused` lines; a meta line, so that where a refactor emits its events does not move compared lines).
 use crate::world::*;
+use std::cell::Cell;
+use std::future::Future;
+use std::pin::Pin;
 use std::sync::Arc;
+use std::task::{Context, Poll};
 use std::time::Duration;
 use tower::{Layer, Service};
 use tower_resilience_retry::{
@@ -65,6 +76,58 @@ pub struct Adapter {
     budget: Option<Arc<dyn RetryBudget>>,
     aimd: Option<Arc<AimdBudget>>,
     dflt_max: u64,
+}
+
+thread_local! {
+    /// the request whose call future is being polled right now
+    static CUR: Cell<Option<usize>> = const { Cell::new(None) };
+}
+
+/// the call future of request `c`: while it is polled, `CUR` names the request
+struct Tagged<F> {
+    c: usize,
+    fut: F,
+}
+impl<F: Future + Unpin> Future for Tagged<F> {
+    type Output = F::Output;
+    fn poll(mut self: Pin<&mut Self>, cx: &mut Context<'_>) -> Poll<F::Output> {
+        struct Restore(Option<usize>);
+        impl Drop for Restore {
+            fn drop(&mut self) {
+                CUR.with(|c| c.set(self.0));
+            }
+        }
+        let _restore = Restore(CUR.with(|c| c.replace(Some(self.c))));
+        Pin::new(&mut self.fut).poll(cx)
+    }
+}
+
+/// the budget as the layer sees it: every `try_withdraw` made by the loop of a request is a log line
+struct Logged(Arc<dyn RetryBudget>);
+impl RetryBudget for Logged {
+    fn try_withdraw(&self) -> bool {
+        let r = self.0.try_withdraw();
+        if let Some(c) = CUR.with(|c| c.get()) {
+            log(format!("budget {} {}", c, if r { "grant" } else { "refused" }));
+        }
+        r
+    }
+    fn deposit(&self) {
+        self.0.deposit()
+    }
+    fn balance(&self) -> usize {
+        self.0.balance()
+    }
+}
+
+/// what is handed to `.budget(..)`
+fn logged(b: Arc<dyn RetryBudget>) -> Arc<dyn RetryBudget> {
+    Arc::new(Logged(b))
+}
+
+/// the layer's own report of a refusal
+fn listen(b: B) -> B {
+    b.on_budget_exhausted(|attempt| log_raw(format!("#budget_exhausted {}", attempt)))
 }
 
 /// an interval-function object whose answers are observed: handed to the model as `@d=<ns>` on the operation in
@@ -255,7 +318,7 @@ fn build_chain(chain: &str, us: bool, via: &str) -> (B, Budgets) {
             ("u", _, _) => {
                 let made = mk_budget(a1);
                 if let Some(bu) = made.0.clone() {
-                    b = b.budget(bu);
+                    b = b.budget(logged(bu));
                     budgets = made;
                 }
             }
@@ -284,7 +347,7 @@ impl Adapter {
         };
         if let Some(chain) = kv.get("chain") {
             let (b, budgets) = build_chain(chain, us, kv.get("via").unwrap_or(""));
-            return mk(b.build(), budgets, NO_MA);
+            return mk(listen(b).build(), budgets, NO_MA);
         }
         let mut b = RetryLayer::<Req, IErr>::builder();
         let dflt_max = kv.u64("max", 3);
@@ -305,9 +368,9 @@ impl Adapter {
         }
         let (budget, aimd) = kv.get("budget").map(mk_budget).unwrap_or((None, None));
         if let Some(bu) = budget.clone() {
-            b = b.budget(bu);
+            b = b.budget(logged(bu));
         }
-        mk(b.build(), (budget, aimd), dflt_max)
+        mk(listen(b).build(), (budget, aimd), dflt_max)
     }
 
     /// service k of the one layer value (built at first use; `lclone`: through a clone of the layer taken now)
@@ -354,7 +417,7 @@ impl Mw for Adapter {
             self.base.shared.lock().unwrap().ready_script.push_front('r');
         }
         let ready = matches!(poll_ready_once(&mut svc), std::task::Poll::Ready(Ok(())));
-        let fut = if ready { Some(svc.call(req)) } else { None };
+        let fut = if ready { Some(Tagged { c, fut: svc.call(req) }) } else { None };
         if kv.get("h").is_some() {
             self.handles.insert(k, svc);
         }
